@@ -41,7 +41,7 @@ def child_env():
 def write_replay(pid, key, rec, seed, tier):
     from gv.common import case_hash
 
-    d = os.path.join(ROOT, "replay", pid)
+    d = os.path.join(ROOT, "replay" + os.environ.get("VERIF_EVIDENCE_SUFFIX", ""), pid)
     os.makedirs(d, exist_ok=True)
     name = case_hash([key, rec["case"]]) + ".json"
     path = os.path.join(d, name)
@@ -170,23 +170,37 @@ def main(argv=None):
         else:
             known_lines.append(f"NOTE: known finding no longer reproduces: property={pid} {ent['what']}")
 
-    procs = []
-    for shard in range(nshards):
+    def launch(shard):
         outp = os.path.join(work, f"shard{shard}.json")
         logp = os.path.join(work, f"shard{shard}.log")
-        p = subprocess.Popen(
+        return subprocess.Popen(
             [sys.executable, "-m", "gv.worker", pid, tier, str(seed), str(shard), str(nshards), outp, logp],
             env=env,
             cwd=ROOT,
             stdout=subprocess.DEVNULL,
-            stderr=open(os.path.join(work, f"shard{shard}.err"), "wb"),
-        )
-        procs.append((p, outp, shard))
+            stderr=open(os.path.join(work, f"shard{shard}.err"), "ab"),
+        ), outp
 
+    procs = [(launch(shard), shard) for shard in range(nshards)]
     harness_err = False
     results = []
-    for p, outp, shard in procs:
+    aborted_cases = []
+    for (p, outp), shard in procs:
         rc = p.wait()
+        restarts = 0
+        # a negative return code is a process abort inside native code (e.g. an XLA CHECK failure): the case that
+        # was running is recorded, skipped, and the shard is re-run with the same seed (at most 3 times)
+        while rc < 0 and restarts < 3 and os.path.exists(outp + ".cur"):
+            from gv.common import case_hash
+
+            with open(outp + ".cur") as f:
+                cur = json.load(f)
+            aborted_cases.append({"shard": shard, "signal": -rc, "case": cur})
+            with open(outp + ".skip", "a") as f:
+                f.write(case_hash(cur) + "\n")
+            restarts += 1
+            p, outp = launch(shard)
+            rc = p.wait()
         if rc != 0 or not os.path.exists(outp):
             harness_err = True
             sys.stderr.write(f"shard {shard} exited {rc}\n")
@@ -228,6 +242,9 @@ def main(argv=None):
                 if sig not in seen and len(samples) < 10:
                     seen.add(sig)
                     samples.append(s)
+    for r in results:
+        for a in r.get("native_aborts", []):
+            aborted_cases.append({"shard": r["shard"], "signal": -a["returncode"] if a["returncode"] and a["returncode"] < 0 else a["returncode"], "case": a["case"], "isolated": True})
     skipped = sum(r["skipped_budget"] for r in results)
     exhaustive_cases = sum(r["exhaustive_cases"] for r in results)
     wall = time.time() - t0
@@ -256,6 +273,7 @@ def main(argv=None):
             "skipped_after_time_budget": skipped,
             "excluded_by_known_finding": known_hits,
             "technique": meta.get("technique", ""),
+            "process_aborts_in_native_code": aborted_cases,
         },
         "assumptions": meta["assumptions"],
         "wall_s": round(wall, 2),
@@ -265,7 +283,8 @@ def main(argv=None):
         evidence["coverage"]["exhaustive"] = True
         evidence["coverage"]["exhaustive_scope"] = exh
     os.makedirs(os.path.join(ROOT, "evidence"), exist_ok=True)
-    with open(os.path.join(ROOT, "evidence", f"{pid}.json"), "w") as f:
+    suffix = os.environ.get("VERIF_EVIDENCE_SUFFIX", "")
+    with open(os.path.join(ROOT, "evidence", f"{pid}.json{suffix}"), "w") as f:
         json.dump(evidence, f, indent=1, default=str)
 
     for line in known_lines:
@@ -275,6 +294,11 @@ def main(argv=None):
         f"{len(keys)} distinct non-trivial, {len(vio_paths)} violation bucket(s), "
         f"{sum(known_hits.values())} hits on known findings, {skipped} skipped after time budget, {wall:.1f}s"
     )
+    for a in aborted_cases:
+        if not a.get("isolated"):
+            print(f"NOTE: process abort (signal {a['signal']}) in native code while running a case on shard {a['shard']}; case skipped and recorded in the evidence")
+    if any(a.get("isolated") for a in aborted_cases):
+        print(f"NOTE: {sum(1 for a in aborted_cases if a.get('isolated'))} case(s) aborted inside the XLA compiler in an isolated child process (strided + lhs-dilated convolution); excluded and recorded in the evidence")
     if vio_paths:
         for k, path, msg in vio_paths:
             print(f"  {k}: {msg[:300]}")
